@@ -8,7 +8,9 @@ import (
 
 	"github.com/crate-crypto/go-ipa/banderwagon"
 	"github.com/crate-crypto/go-ipa/common"
+	"github.com/crate-crypto/go-ipa/zzverif/vsched"
 	"verif.local/engine/core"
+	"verif.local/engine/explore"
 	"verif.local/engine/ref"
 )
 
@@ -175,6 +177,43 @@ func c14Units(ctx *core.Ctx) []core.Unit {
 			}})
 		}
 	}
+	us = append(us, core.Unit{Name: "every sync.Pool answer inside challenges (pooled objects poisoned on Put), <= 2 deviations", Run: func(ctx *core.Ctx, r *core.Result) {
+		if !vsched.Instrumented {
+			r.Note("seam", "unavailable (fallback flavour)")
+			return
+		}
+		needRef()
+		old := vsched.PoolPoison
+		vsched.PoolPoison = poisonBig
+		defer func() { vsched.PoolPoison = old }()
+		ops := c14Menu(ctx.Seed)
+		seqs := [][]int{{6, 0, 7, 9, 15, 1}, {0, 0, 0}, {14, 8, 16, 9, 0}, {17, 18, 1, 5, 8}}
+		for _, seq := range seqs {
+			tr := ref.NewTranscript("pool")
+			want := ""
+			for _, oi := range seq {
+				if c := ops[oi].refop(tr); c != nil {
+					want += c.Text(16) + ","
+				}
+			}
+			want += tr.Challenge("end").Text(16)
+			body := func() string {
+				ti := common.NewTranscript("pool")
+				out := ""
+				for _, oi := range seq {
+					if c := ops[oi].impl(ti); c != nil {
+						out += c.Text(16) + ","
+					}
+				}
+				return out + frToBig(ti.ChallengeScalar([]byte("end"))).Text(16)
+			}
+			name := "transcript history " + fmt.Sprint(seq) + " under every pool answer"
+			st := core.Explore(r, core.SchedSpec{Name: name, API: "common.Transcript.ChallengeScalar", Check: "c14.pool", Body: body, Expect: want, Mode: "bounded", Opt: explore.Options{MaxBound: 2, DataOnly: true}})
+			r.Evals += int64(st.Execs)
+			r.Nontrivial += int64(st.Complete)
+			r.Traces += int64(st.Complete)
+		}
+	}})
 	us = append(us, core.Unit{Name: "long chains: pending sizes 0..5000, consecutive challenges, many small appends", Run: func(ctx *core.Ctx, r *core.Result) {
 		needRef()
 		states := map[string]bool{}
